@@ -372,7 +372,7 @@ def main():
             results.append(f.result())
     findings, fixed = read_known()
     my_known = [k for k in findings if k["property"] == pid]
-    violations, known_hit, undecided = [], [], []
+    violations, known_hit, undecided, foreign = [], [], [], []
     for r in results:
         for u in r["undecided"]:
             undecided.append("%s: %s" % (r["unit"], u))
@@ -383,6 +383,7 @@ def main():
             lp = label_props(f["label"])
             if lp is not None:
                 if pid not in lp:
+                    foreign.append(dict(f, unit=r["unit"]))
                     continue
             else:
                 # unlabelled obligation inside a function: counts for the properties the function serves
@@ -394,9 +395,11 @@ def main():
                 if props is None:
                     props = reg.UNITS[r["unit"]]["serves"]
                 if pid not in props and pid != "C13":
+                    foreign.append(dict(f, unit=r["unit"]))
                     continue
                 if pid == "C13" and not re.search(r"overflow|underflow|precondition|division|index|unreachable|panic", f["msg"] + f["label"]):
                     if pid not in props:
+                        foreign.append(dict(f, unit=r["unit"]))
                         continue
             f = dict(f, unit=r["unit"])
             k = [k for k in my_known if k["obligation"] == f["label"]]
@@ -425,14 +428,14 @@ def main():
     if undecided and violations:
         for u in undecided:
             lines.append("note: also undecided: %s" % u)
-    write_evidence(pid, pinfo, tier, seed, results, known_hit, vio_out, undecided, time.time() - t0, reg)
+    write_evidence(pid, pinfo, tier, seed, results, known_hit, vio_out, undecided, time.time() - t0, reg, foreign)
     for l in dict.fromkeys(lines):
         print(l)
     if rc == 0:
         tot_o = sum(r["obligations"] for r in results)
         tot_d = sum(r["discharged"] for r in results)
-        print("OK property=%s units=%s obligations=%d discharged=%d known_findings=%d wall=%.1fs" % (
-            pid, ",".join(r["unit"] for r in results), tot_o, tot_d, len(known_hit), time.time() - t0))
+        print("OK property=%s units=%s obligations=%d discharged=%d known_findings=%d other_property_failures=%d wall=%.1fs" % (
+            pid, ",".join(r["unit"] for r in results), tot_o, tot_d, len(known_hit), len(foreign), time.time() - t0))
     return rc
 
 
@@ -474,7 +477,7 @@ def replay(path):
     return 1
 
 
-def write_evidence(pid, pinfo, tier, seed, results, known_hit, violations, undecided, wall, reg):
+def write_evidence(pid, pinfo, tier, seed, results, known_hit, violations, undecided, wall, reg, foreign=()):
     functions = []
     trusted = []
     assumptions = list(pinfo.get("assumptions", []))
@@ -513,8 +516,11 @@ def write_evidence(pid, pinfo, tier, seed, results, known_hit, violations, undec
     failing_fn_count = 0
     for r in results:
         failing_fn_count += r["obligations"] - r["discharged"]
-    known_fn = len(set((f.get("fn"), f["unit"]) for (k, f) in known_hit))
-    ob_claimed = ob - min(known_fn, failing_fn_count) if not violations else ob
+    vio_fns = set((f.get("fn"), f["unit"]) for f in violations)
+    known_fn = len(set((f.get("fn"), f["unit"]) for (k, f) in known_hit) - vio_fns)
+    # functions that fail only obligations labelled for OTHER properties are not part of this property's claim
+    foreign_fn = len(set((f.get("fn"), f["unit"]) for f in foreign) - vio_fns - set((f.get("fn"), f["unit"]) for (k, f) in known_hit))
+    ob_claimed = ob - min(known_fn + foreign_fn, failing_fn_count)
     cov = dict(
         obligations=ob_claimed, discharged=di,
         checker_cmd=" ; ".join(cmds)[:4000] or "see per_unit",
@@ -523,6 +529,7 @@ def write_evidence(pid, pinfo, tier, seed, results, known_hit, violations, undec
         per_unit=per_unit,
         samples=samples[:12] or ["(no sample)"],
         known_findings=kf,
+        other_property_failures=[dict(obligation=f["label"], function=f.get("fn"), unit=f["unit"]) for f in foreign],
         undecided=undecided,
         bounded_companions=bounded,
         rule="obligation = one function-level SMT query reported by Verus (exec/proof function or spec termination), one CBMC property, or one Kani check; counted by the back end on this run",
